@@ -29,6 +29,9 @@ def run_harness(pid, cfg, harness, modules, out, stats, label=None, max_paths=40
         stats.samples.append({"cfg": cfg, "harness": label, "paths": E.paths, "aborted": E.aborted,
                               "obligations_proved": E.proved, "solver_queries": E.queries,
                               "failures": [m for m, _ in E.failures]})
+    if E.failures:
+        from .bmc import mark_violation
+        mark_violation()
     for msg, values in E.failures:
         out.violations.append({
             "key": f"{label or 'h'}:{msg}@{cfg_key(cfg)}",
